@@ -269,6 +269,48 @@ private:
 
         png_bytep row_ptr = (png_bytep)( &( buffer.data()[0]));
 
+        if( this->_number_passes > 1 )
+        {
+            // Interlaced image: libpng combines the passes of a row in the memory it is handed, so every
+            // row of the image keeps its own buffer until the last pass has been read.
+            std::ptrdiff_t const height = static_cast< std::ptrdiff_t >( this->_info._height );
+
+            std::vector< row_buffer_helper_t > rows;
+            rows.reserve( static_cast< std::size_t >( height ));
+            for( std::ptrdiff_t y = 0; y < height; ++y )
+            {
+                rows.push_back( row_buffer_helper_t( rowbytes, true ));
+            }
+
+            for( std::size_t pass = 0; pass < this->_number_passes; pass++ )
+            {
+                for( std::ptrdiff_t y = 0; y < height; ++y )
+                {
+                    png_bytep interlaced_row_ptr = (png_bytep)( &( rows[ static_cast< std::size_t >( y ) ].data()[0] ));
+
+                    png_read_rows( this->get_struct()
+                                 , &interlaced_row_ptr
+                                 , nullptr
+                                 , 1
+                                 );
+                }
+            }
+
+            for( std::ptrdiff_t y = 0; y < this->_settings._dim.y; ++y )
+            {
+                row_buffer_helper_t& row = rows[ static_cast< std::size_t >( this->_settings._top_left.y + y ) ];
+
+                it_t first = row.begin() + this->_settings._top_left.x;
+                it_t last  = first + this->_settings._dim.x; // one after last element
+
+                this->_cc_policy.read( first
+                                     , last
+                                     , view.row_begin( y ));
+            }
+
+            return;
+        }
+
         for( std::size_t pass = 0; pass < this->_number_passes; pass++ )
         {
             if( pass == this->_number_passes - 1 )
